@@ -196,7 +196,8 @@ def tlc(module, cfg=None, workers=None, simulate=None, depth=None, coverage=Fals
     res["coverage"] = cov
     if not quiet or rc not in (0, 10, 11, 12, 13):
         log("TLC rc=%d: %s" % (rc, res["cmd"]))
-        log("\n".join(x for x in out.split("\n") if not x.startswith(("Parsing file", "Semantic processing", "Linting of")))[-3000:])
+        keep = [x for x in out.split("\n") if x.strip() and not x.startswith(("Parsing file", "Semantic processing", "Linting of", "Progress(", "Computed ", "/\\ ", "State "))]
+        log("\n".join(keep[-25:])[-2500:])
     return res
 
 
